@@ -57,6 +57,7 @@ Matches(o, ev) ==
     /\ (ev.res.err \notin {"PANIC", "DEADLOCK"}) =>
           (/\ ProjFor(o.st) = PostOf(ev)
            /\ CwdPath(o.st) = ev.cwd
+           /\ (ev.um # -1 => o.st.umask = ev.um)      \* the umask of the (parent) file system itself
            /\ HObs(o.st) = ev.hs
            /\ ev.srt
            /\ (o.inv = "ok" => ev.inv = "ok"))
@@ -90,7 +91,9 @@ TraceStep ==
           ELSE IF ev.call.op = "wrap" THEN
                \* from here on the calls of this trace go through a wrapper around the same base
                \* flag = <<kind>> or <<"failfs", fn>> with the plan's k in n
-               /\ cands' = {[cd EXCEPT !.x = IF Len(ev.call.flag) > 1
+               /\ cands' = {[cd EXCEPT !.x = IF ev.call.flag[1] = "sub"
+                                              THEN [dir |-> ev.call.p.parts, vcwd |-> <<>>, umask |-> cd.st.umask]
+                                              ELSE IF Len(ev.call.flag) > 1
                                               THEN [plan |-> [fn |-> ev.call.flag[2], k |-> ev.call.n], fc |-> EmptyFn]
                                               ELSE X0] : cd \in pre}
                /\ bad' = FALSE /\ w' = ev.call.flag[1] /\ mt' = ev.mt /\ Count(4)
